@@ -208,7 +208,7 @@ pub fn full_world() -> World {
     let pair_lp = lp_of(&pinfo.liquidity_token);
     let trio_lp = lp_of(&tinfo.liquidity_token);
     let router = app.instantiate_contract(c.router, admin(), &white_whale_std::pool_network::router::InstantiateMsg {
-        terraswap_factory: factory.to_string() }, &[], "router", None).unwrap();
+        terraswap_factory: factory.to_string() }, &[], "router", Some(ADMIN.to_string())).unwrap();   // route management = the wasm admin
     let incentive_factory = app.instantiate_contract(c.incentive_factory, admin(), &white_whale_std::pool_network::incentive_factory::InstantiateMsg {
         fee_collector_addr: collector.to_string(), fee_distributor_addr: distributor.to_string(),
         create_flow_fee: Asset { info: native("uwhale"), amount: Uint128::new(1000) }, max_concurrent_flows: 5,
